@@ -260,6 +260,14 @@ def _auto(b, e):
         if Bounds(facts).le(c, a):
             return f"`{tstr(deep_strip(c))[:60]}` <= `{tstr(deep_strip(a))[:60]}` by interval / ordering closure over the dominating facts"
         return None
+    if k == "unwrap" and len(e["ops"]) >= 1 and "_facts" not in e:
+        # unwrap()/expect() of one of the crate's own checked helpers whose every failing return is excluded at this point
+        fs = getattr(b.prog, "_c07_failsum", None)
+        if fs is not None:
+            why = fs.cannot_fail(e["ops"][0], _F(b, e))
+            if why:
+                return "unwrap of a call that cannot fail here: " + why
+        return None
     if k == "Overflow:Add":
         a, c = e["ops"]
         why = Bounds(_F(b, e)).add_fits(a, c)
@@ -267,7 +275,20 @@ def _auto(b, e):
     if k == "Overflow:Mul":
         a, c = e["ops"]
         why = Bounds(_F(b, e)).mul_fits(a, c)
-        return why
+        if why:
+            return why
+        # size_of::<T>() * len(s) for a Rust slice / Vec `s` of T: the language guarantees that an allocated object, hence any
+        # slice, spans at most isize::MAX bytes
+        from ..bounds import norm as bnorm
+        for x, y in ((bnorm(a), bnorm(c)), (bnorm(c), bnorm(a))):
+            if x[0] == 'call' and canon(x[1]).split("::")[-1] == "size_of" and len(x) > 3 and len(x[3]) == 1 and y[0] == 'len':
+                base = y[1]
+                ty = None
+                if base[0] == 'param' and "_facts" not in e:
+                    ty = b.local_ty(base[1]).peel().s
+                if ty is not None and (ty == f"[{x[3][0]}]" or re.fullmatch(r"(std::vec::)?Vec<%s(, .*)?>" % re.escape(x[3][0]), ty)):
+                    return f"size_of::<{x[3][0]}>() * len of a `{ty}`: a Rust slice never spans more than isize::MAX bytes"
+        return None
     if k in ("DivisionByZero", "RemainderByZero"):
         d = deep_strip(e["ops"][0])
         # ops[0] is the dividend in rustc's message; find the divisor from the statement that follows
@@ -492,8 +513,100 @@ def loops_of(prog, b):
                         shape = "param_bounded_range"
                         detail = ("integer range whose bounds derive from a caller-supplied scalar and no early exit against a container size: the iteration "
                                   "count is the caller's value (up to 2^64 no-op iterations = effectively no termination)")
+        if not nxt and shape is None:
+            cp = _counter_progress(b, h, latches, blocks)
+            if cp:
+                shape, detail = "counter_progress", cp
         out.append((h, blocks, shape, detail, calls))
     return out
+
+
+def _range_checked_param(b, pos, prm):
+    """a caller-supplied scalar that a successful range check of one of the crate's accessors (offset + count <= len) has already
+    bounded by the length of real memory"""
+    from .. import checks
+    fs = getattr(b.prog, "_c07_failsum", None)
+    if fs is None:
+        return False
+    for s_ in checks.succeeded(b, pos):
+        if s_[0] == 'call':
+            body = fs._body(s_[1])
+            rc = fs.S.range_check(body.id) if body is not None else None
+            if rc and any(deep_strip(s_[2][rc[k_] - 1])[:2] == prm[:2] for k_ in ("a", "b")):
+                return True
+            # the same from the complete failure summary: the callee fails whenever p_i + p_j > self.size, so on success both
+            # summands are at most the length
+            for alt in (fs.alternatives(body.id) if body is not None else None) or ():
+                if alt[0] != "facts":
+                    continue
+                for op, x, y in alt[1]:
+                    x2, y2 = fs._sums(x), fs._sums(y)
+                    if op == 'Gt' and x2[0] == 'bin' and x2[1] == 'Add' and y2[0] == 'field' and y2[2] == 'size' and y2[1][:2] == ('param', 1):
+                        for q in (x2[2], x2[3]):
+                            if q[0] == 'param' and 0 < q[1] <= len(s_[2]) and deep_strip(s_[2][q[1] - 1])[:2] == prm[:2]:
+                                return True
+    return False
+
+
+def _counter_progress(b, h, latches, blocks):
+    """`while v < bound { ..; v += n }` with n != 0 at every update and a bound the loop does not change: v grows strictly, so the
+    loop ends after at most `bound` rounds; each round does at least one unit of the work the bound measures. The bound must not be
+    a bare caller-supplied scalar (that would be the caller's number of rounds): a field, a length, or a value derived from them."""
+    from ..bounds import norm as bnorm
+    cands = set()
+    for bb in blocks:
+        for s_ in b.blocks[bb]["stmts"]:
+            if s_["k"] == "assign" and not s_["lhs"].get("p"):
+                cands.add(s_["lhs"]["l"])
+    for L in sorted(cands):
+        try:
+            defs = b.var_defs(L)
+        except Exception:
+            continue
+        inside = [(p_, bnorm(t)) for p_, t in defs if p_[0] in blocks]
+        if not inside or len(inside) == len(defs):
+            continue
+        steps = []
+        for p_, t in inside:
+            step = None
+            if t[0] == 'bin' and t[1] == 'Add':
+                step = t[3] if (t[2][0] == 'var' and t[2][1] == L) else (t[2] if (t[3][0] == 'var' and t[3][1] == L) else None)
+            steps.append((p_, step))
+        if any(st is None for _p, st in steps):
+            continue
+        # every way round the loop performs an update: each back edge is dominated by one of them
+        if not all(any(b.pos_dominates(p_, (u, len(b.blocks[u]["stmts"]))) for p_, _st in steps) for u in latches):
+            continue
+        # at every update: v < bound still holds for the value being updated (the loop guard), bound loop-invariant, step != 0
+        bounds_seen = None
+        ok = True
+        for p_, st in steps:
+            fs = b.facts_at(p_)
+            if not Bounds(fs).nonzero(st):
+                ok = False
+                break
+            bs = set()
+            for r in fs:
+                if r[0] == 'cmp' and r[1] in ('Lt', 'Gt'):
+                    v, bound = (r[2], r[3]) if r[1] == 'Lt' else (r[3], r[2])
+                    v, bound = bnorm(v), bnorm(bound)
+                    if v[0] == 'var' and v[1] == L:
+                        inv = not (bound[0] == 'param' and b.local_ty(bound[1]).k == 'prim') or _range_checked_param(b, p_, bound)
+                        for x in subterms(bound):
+                            if x[0] == 'var' and any(q[0] in blocks for q, _t in b.var_defs(x[1])):
+                                inv = False
+                        if inv:
+                            bs.add(bound)
+            bounds_seen = bs if bounds_seen is None else (bounds_seen & bs)
+            if not bounds_seen:
+                ok = False
+                break
+        # the guard must be what keeps the loop going: leaving the header region without the update must be an exit of the loop
+        if ok and bounds_seen:
+            bound = sorted(bounds_seen, key=repr)[0]
+            return (f"counter loop: every round that continues adds a value shown non-zero to `{b.local_name(L) or L}` while `{b.local_name(L) or L}` < "
+                    f"`{tstr(bound)[:60]}` (checked at the update); the bound is not changed by the loop and is not a bare caller-supplied scalar")
+    return None
 
 
 FINITE_ITER = re.compile(r"(slice::iter(_mut)?|slice::windows|Iterator::take|Iterator::enumerate|Iterator::map|Iterator::zip|RangeInclusive::new|IntoIterator::into_iter|Vec::iter|Vec::drain|Iterator::rev)$")
@@ -551,6 +664,8 @@ def run(ctx, progs):
         ctx.config = cfg
         eff = effects.Effects(prog)
         contract_kinds(prog)
+        from ..failsum import FailSummaries
+        prog._c07_failsum = FailSummaries(prog, eff)
         n_bodies = n_edges = n_auto = n_tab = 0
         n_loops = 0
         for b in prog.bodies:
@@ -618,9 +733,11 @@ def run(ctx, progs):
             for h, blocks, shape, detail, calls in loops_of(prog, b):
                 n_loops += 1
                 inst = f"{fnkey}|loop"
-                if shape and shape != "param_bounded_range":
+                if shape and shape != "param_bounded_range" and not (shape == "counter_progress" and any(re.search(r[0], fnkey) for r in T.LOOPS)):
                     ctx.ob("A4.loop", inst + f"|{shape}", True, b.where(), detail)
                     continue
+                if shape == "counter_progress":
+                    shape = None        # a function with a tabled loop shape is checked against that shape below
                 if shape == "param_bounded_range":
                     trow = None
                     for r in T.LOOPS:
